@@ -37,7 +37,16 @@ pub struct Prepared {
     pub cfg: TowerCfg,
 }
 
+#[derive(Clone, Debug)]
+pub enum Pending {
+    None,
+    Mine(Vec<Vec<TxRef>>),
+    Reorg(usize, Vec<Vec<TxRef>>),
+}
+
 pub struct Scenario {
+    /// chain change applied after the tower has bootstrapped, delivered by the concurrent poll
+    pub pending: Pending,
     pub name: String,
     pub prep: Prepared,
     pub api: Vec<Vec<COp>>,
@@ -50,7 +59,7 @@ pub struct Scenario {
 #[derive(Clone, Debug)]
 pub enum Mode {
     /// seeded PCT schedule with this many priority change points
-    Pct { seed: u64, preemptions: usize },
+    Pct { seed: u64, preemptions: usize, horizon: usize },
     /// scripted sequential reference: thread names per segment
     Script(Vec<String>),
     /// real parallelism with seeded delays
@@ -120,13 +129,13 @@ fn canon_db(s: &Snap) -> String {
 static EXEC_SEQ: std::sync::atomic::AtomicU64 = std::sync::atomic::AtomicU64::new(0);
 
 pub fn execute(sc: &Scenario, mode: &Mode, dir: &PathBuf) -> ExecResult {
-    let world = sc.prep.world.fork();
+    let mut world = sc.prep.world.fork();
     let n = EXEC_SEQ.fetch_add(1, std::sync::atomic::Ordering::SeqCst);
     let db_path = dir.join(format!("exec-{n}.sqlite"));
     std::fs::write(&db_path, &sc.prep.db).unwrap();
     let cfg = TowerCfg { db_path: db_path.clone(), ..sc.prep.cfg.clone() };
     let sched = match mode {
-        Mode::Pct { seed, preemptions } => Sched::new(*seed, true, *preemptions, 60, 0),
+        Mode::Pct { seed, preemptions, horizon } => Sched::new(*seed, true, *preemptions, *horizon, 0),
         Mode::Script(script) => {
             let s = Sched::new(1, true, 0, 1, 0);
             s.state(|st| st.script = Some(script.clone()));
@@ -146,6 +155,11 @@ pub fn execute(sc: &Scenario, mode: &Mode, dir: &PathBuf) -> ExecResult {
     let mut replies: BTreeMap<String, Vec<String>> = BTreeMap::new();
     let res = catch_unwind(AssertUnwindSafe(|| {
         tower::run_session(&chain, &node, &cfg, |s| {
+            match &sc.pending {
+                Pending::None => {}
+                Pending::Mine(b) => world.mine(b, 1),
+                Pending::Reorg(d, b) => world.reorg(*d, b, 1),
+            }
             log_start.set(world.log.len());
             // thread ids are handed out here, in a fixed order
             let chain_tid = sched.add_thread("chain", "chain");
@@ -216,7 +230,10 @@ pub fn execute(sc: &Scenario, mode: &Mode, dir: &PathBuf) -> ExecResult {
     rpcs.sort();
     let outcome = format!("{replies:?}\n{}{rpcs:?}", canon_db(&snap));
     let _ = std::fs::remove_file(&db_path);
-    let recs = panics::take();
+    let mut recs = panics::take();
+    if recs.iter().any(|r| !r.message.contains("PoisonError")) {
+        recs.retain(|r| !r.message.contains("PoisonError"));
+    }
     sched.state(|st| ExecResult {
         outcome,
         stuck: st.stuck.clone(),
@@ -354,7 +371,7 @@ pub fn scenarios(seed: u64, dir: &PathBuf) -> Vec<Scenario> {
         let v = b.version(0, BlobKind::Valid, size(&mut rng));
         let sig = b.sig_add(0, v);
         if let Ok(prep) = b.freeze() {
-            out.push(Scenario { name: "same-appointment-twice".into(), prep, api: vec![vec![COp::Add { ver: v, sig: sig.clone() }], vec![COp::Add { ver: v, sig }]], poll: false, connects: 0, desc: "two concurrent submissions of the same appointment by the same user".into() });
+            out.push(Scenario { pending: Pending::None, name: "same-appointment-twice".into(), prep, api: vec![vec![COp::Add { ver: v, sig: sig.clone() }], vec![COp::Add { ver: v, sig }]], poll: false, connects: 0, desc: "two concurrent submissions of the same appointment by the same user".into() });
         }
     }
     // S2: appointment accepted while the block with its dispute is being processed
@@ -363,9 +380,8 @@ pub fn scenarios(seed: u64, dir: &PathBuf) -> Vec<Scenario> {
         b.push(Op::Register { user: 0 });
         let v = b.version(1, kind, size(&mut rng));
         let sig = b.sig_add(0, v);
-        if let Ok(mut prep) = b.freeze() {
-            prep.world.mine(&[vec![TxRef::Dispute(1), TxRef::Filler(1)]], 1);
-            out.push(Scenario { name: format!("add-vs-dispute-block[{kind:?}]"), prep, api: vec![vec![COp::Add { ver: v, sig }]], poll: true, connects: 1, desc: "add_appointment concurrent with the block that contains its dispute".into() });
+        if let Ok(prep) = b.freeze() {
+            out.push(Scenario { pending: Pending::Mine(vec![vec![TxRef::Dispute(1), TxRef::Filler(1)]]), name: format!("add-vs-dispute-block[{kind:?}]"), prep, api: vec![vec![COp::Add { ver: v, sig }]], poll: true, connects: 1, desc: "add_appointment concurrent with the block that contains its dispute".into() });
         }
     }
     // S3: renewal concurrent with a submission by the same user
@@ -375,7 +391,7 @@ pub fn scenarios(seed: u64, dir: &PathBuf) -> Vec<Scenario> {
         let v = b.version(0, BlobKind::Valid, size(&mut rng));
         let sig = b.sig_add(0, v);
         if let Ok(prep) = b.freeze() {
-            out.push(Scenario { name: "renew-vs-add".into(), prep, api: vec![vec![COp::Register { user: 0 }], vec![COp::Add { ver: v, sig }]], poll: false, connects: 0, desc: "register (renewal) concurrent with add_appointment of the same user".into() });
+            out.push(Scenario { pending: Pending::None, name: "renew-vs-add".into(), prep, api: vec![vec![COp::Register { user: 0 }], vec![COp::Add { ver: v, sig }]], poll: false, connects: 0, desc: "register (renewal) concurrent with add_appointment of the same user".into() });
         }
     }
     // S4: submission concurrent with the block that completes a tracker of the same user (refund)
@@ -389,9 +405,8 @@ pub fn scenarios(seed: u64, dir: &PathBuf) -> Vec<Scenario> {
         b.mine_poll((0..99).map(|_| vec![]).collect());
         let v2 = b.version(3, BlobKind::Valid, size(&mut rng));
         let sig = b.sig_add(0, v2);
-        if let Ok(mut prep) = b.freeze() {
-            prep.world.mine(&[vec![]], 1);
-            out.push(Scenario { name: "add-vs-completion-refund".into(), prep, api: vec![vec![COp::Add { ver: v2, sig }]], poll: true, connects: 1, desc: "add_appointment concurrent with the block that buries the user's penalty 100 deep (refund)".into() });
+        if let Ok(prep) = b.freeze() {
+            out.push(Scenario { pending: Pending::Mine(vec![vec![]]), name: "add-vs-completion-refund".into(), prep, api: vec![vec![COp::Add { ver: v2, sig }]], poll: true, connects: 1, desc: "add_appointment concurrent with the block that buries the user's penalty 100 deep (refund)".into() });
         }
     }
     // S5: submission concurrent with the block that purges the user
@@ -403,9 +418,8 @@ pub fn scenarios(seed: u64, dir: &PathBuf) -> Vec<Scenario> {
         let v = b.version(0, BlobKind::Valid, size(&mut rng));
         let sig = b.sig_add(0, v);
         let gs = b.sig_msg(0, b"get subscription info");
-        if let Ok(mut prep) = b.freeze() {
-            prep.world.mine(&[vec![]], 1);
-            out.push(Scenario { name: "add-vs-purge".into(), prep, api: vec![vec![COp::Add { ver: v, sig }], vec![COp::GetSub { sig: gs }]], poll: true, connects: 1, desc: "add_appointment / get_subscription_info concurrent with the block that purges the user".into() });
+        if let Ok(prep) = b.freeze() {
+            out.push(Scenario { pending: Pending::Mine(vec![vec![]]), name: "add-vs-purge".into(), prep, api: vec![vec![COp::Add { ver: v, sig }], vec![COp::GetSub { sig: gs }]], poll: true, connects: 1, desc: "add_appointment / get_subscription_info concurrent with the block that purges the user".into() });
         }
     }
     // S6: read concurrent with the dispute block
@@ -417,9 +431,8 @@ pub fn scenarios(seed: u64, dir: &PathBuf) -> Vec<Scenario> {
         let chan = b.case.world.versions[v].chan;
         let msg = format!("get appointment {}", hex::encode(&b.case.world.chans[chan].locator));
         let sig = b.sig_msg(0, msg.as_bytes());
-        if let Ok(mut prep) = b.freeze() {
-            prep.world.mine(&[vec![TxRef::Dispute(chan)]], 1);
-            out.push(Scenario { name: "get-vs-dispute-block".into(), prep, api: vec![vec![COp::GetAppt { chan, sig }]], poll: true, connects: 1, desc: "get_appointment concurrent with the block that contains the dispute".into() });
+        if let Ok(prep) = b.freeze() {
+            out.push(Scenario { pending: Pending::Mine(vec![vec![TxRef::Dispute(chan)]]), name: "get-vs-dispute-block".into(), prep, api: vec![vec![COp::GetAppt { chan, sig }]], poll: true, connects: 1, desc: "get_appointment concurrent with the block that contains the dispute".into() });
         }
     }
     // S7: update concurrent with the dispute block
@@ -430,9 +443,8 @@ pub fn scenarios(seed: u64, dir: &PathBuf) -> Vec<Scenario> {
         b.add(0, v);
         let v2 = b.version(1, BlobKind::Valid, size(&mut rng));
         let sig = b.sig_add(0, v2);
-        if let Ok(mut prep) = b.freeze() {
-            prep.world.mine(&[vec![TxRef::Dispute(1)]], 1);
-            out.push(Scenario { name: "update-vs-dispute-block".into(), prep, api: vec![vec![COp::Add { ver: v2, sig }]], poll: true, connects: 1, desc: "replacing an appointment concurrent with the block that contains its dispute".into() });
+        if let Ok(prep) = b.freeze() {
+            out.push(Scenario { pending: Pending::Mine(vec![vec![TxRef::Dispute(1)]]), name: "update-vs-dispute-block".into(), prep, api: vec![vec![COp::Add { ver: v2, sig }]], poll: true, connects: 1, desc: "replacing an appointment concurrent with the block that contains its dispute".into() });
         }
     }
     // S8: submission concurrent with a one-block reorg (disconnect + two connects)
@@ -442,9 +454,8 @@ pub fn scenarios(seed: u64, dir: &PathBuf) -> Vec<Scenario> {
         b.mine_poll(vec![vec![TxRef::Filler(7)]]);
         let v = b.version(2, BlobKind::Valid, size(&mut rng));
         let sig = b.sig_add(0, v);
-        if let Ok(mut prep) = b.freeze() {
-            prep.world.reorg(1, &[vec![TxRef::Filler(8)], vec![TxRef::Dispute(2)]], 1);
-            out.push(Scenario { name: "add-vs-reorg".into(), prep, api: vec![vec![COp::Add { ver: v, sig }]], poll: true, connects: 2, desc: "add_appointment concurrent with a block disconnection followed by two connections (the second holds its dispute)".into() });
+        if let Ok(prep) = b.freeze() {
+            out.push(Scenario { pending: Pending::Reorg(1, vec![vec![TxRef::Filler(8)], vec![TxRef::Dispute(2)]]), name: "add-vs-reorg".into(), prep, api: vec![vec![COp::Add { ver: v, sig }]], poll: true, connects: 2, desc: "add_appointment concurrent with a block disconnection followed by two connections (the second holds its dispute)".into() });
         }
     }
     // S9: two users, same locator, concurrent with the dispute block
@@ -455,9 +466,8 @@ pub fn scenarios(seed: u64, dir: &PathBuf) -> Vec<Scenario> {
         let v = b.version(3, BlobKind::Valid, 300);
         let s0 = b.sig_add(0, v);
         let s1 = b.sig_add(1, v);
-        if let Ok(mut prep) = b.freeze() {
-            prep.world.mine(&[vec![TxRef::Dispute(3)]], 1);
-            out.push(Scenario { name: "two-users-same-locator-vs-dispute-block".into(), prep, api: vec![vec![COp::Add { ver: v, sig: s0 }], vec![COp::Add { ver: v, sig: s1 }]], poll: true, connects: 1, desc: "two users submit the same locator while the block with the dispute is processed".into() });
+        if let Ok(prep) = b.freeze() {
+            out.push(Scenario { pending: Pending::Mine(vec![vec![TxRef::Dispute(3)]]), name: "two-users-same-locator-vs-dispute-block".into(), prep, api: vec![vec![COp::Add { ver: v, sig: s0 }], vec![COp::Add { ver: v, sig: s1 }]], poll: true, connects: 1, desc: "two users submit the same locator while the block with the dispute is processed".into() });
         }
     }
     // S10: late appointment (dispute already in the window) concurrent with a block that makes a stale
@@ -473,16 +483,15 @@ pub fn scenarios(seed: u64, dir: &PathBuf) -> Vec<Scenario> {
         b.mine_poll(vec![vec![TxRef::Dispute(1)]]);
         let v2 = b.version(1, BlobKind::Valid, 300);
         let sig = b.sig_add(1, v2);
-        if let Ok(mut prep) = b.freeze() {
-            prep.world.mine(&[vec![]], 1);
-            out.push(Scenario { name: "late-add-vs-rebroadcast-block".into(), prep, api: vec![vec![COp::Add { ver: v2, sig }]], poll: true, connects: 1, desc: "an appointment whose dispute is already in the six-block window, concurrent with a block in which a stale penalty is rebroadcast".into() });
+        if let Ok(prep) = b.freeze() {
+            out.push(Scenario { pending: Pending::Mine(vec![vec![]]), name: "late-add-vs-rebroadcast-block".into(), prep, api: vec![vec![COp::Add { ver: v2, sig }]], poll: true, connects: 1, desc: "an appointment whose dispute is already in the six-block window, concurrent with a block in which a stale penalty is rebroadcast".into() });
         }
     }
     // S11: two registrations of the same new user
     {
         let b = Builder::new(seed, next_id(), dir, 5, 500, 6);
         if let Ok(prep) = b.freeze() {
-            out.push(Scenario { name: "register-twice".into(), prep, api: vec![vec![COp::Register { user: 0 }], vec![COp::Register { user: 0 }]], poll: false, connects: 0, desc: "two concurrent registrations of the same new user".into() });
+            out.push(Scenario { pending: Pending::None, name: "register-twice".into(), prep, api: vec![vec![COp::Register { user: 0 }], vec![COp::Register { user: 0 }]], poll: false, connects: 0, desc: "two concurrent registrations of the same new user".into() });
         }
     }
     // S12: three-way: add, subscription info, dispute block
@@ -494,9 +503,8 @@ pub fn scenarios(seed: u64, dir: &PathBuf) -> Vec<Scenario> {
         let v2 = b.version(3, BlobKind::Valid, size(&mut rng));
         let sig = b.sig_add(0, v2);
         let gs = b.sig_msg(0, b"get subscription info");
-        if let Ok(mut prep) = b.freeze() {
-            prep.world.mine(&[vec![TxRef::Dispute(2), TxRef::Dispute(3)]], 1);
-            out.push(Scenario { name: "add+info-vs-dispute-block".into(), prep, api: vec![vec![COp::Add { ver: v2, sig }], vec![COp::GetSub { sig: gs }]], poll: true, connects: 1, desc: "add_appointment and get_subscription_info concurrent with a block holding two disputes".into() });
+        if let Ok(prep) = b.freeze() {
+            out.push(Scenario { pending: Pending::Mine(vec![vec![TxRef::Dispute(2), TxRef::Dispute(3)]]), name: "add+info-vs-dispute-block".into(), prep, api: vec![vec![COp::Add { ver: v2, sig }], vec![COp::GetSub { sig: gs }]], poll: true, connects: 1, desc: "add_appointment and get_subscription_info concurrent with a block holding two disputes".into() });
         }
     }
     out
@@ -533,6 +541,7 @@ pub fn run(seed: u64, shard: u64, nshards: u64, schedules_per_scenario: u64, fre
         let mut refs: BTreeSet<String> = BTreeSet::new();
         let inter = interleavings(if sc.poll { sc.connects + 1 } else { 0 }, sc.api.len());
         let mut ref_problem = None;
+        let mut horizon = 10usize;
         for script in &inter {
             for _ in 0..2 {
                 let r = execute(sc, &Mode::Script(script.clone()), &dir);
@@ -540,6 +549,7 @@ pub fn run(seed: u64, shard: u64, nshards: u64, schedules_per_scenario: u64, fre
                     ref_problem = Some((script.clone(), r));
                     break;
                 }
+                horizon = horizon.max(r.decisions.len());
                 refs.insert(r.outcome);
             }
         }
@@ -558,6 +568,14 @@ pub fn run(seed: u64, shard: u64, nshards: u64, schedules_per_scenario: u64, fre
             }
             continue;
         }
+        if std::env::var("TV_DEBUG").is_ok() {
+            eprintln!("=== scenario {} refs={}", sc.name, refs.len());
+            for r in &refs {
+                eprintln!("--- ref outcome:\n{r}");
+            }
+            let r = execute(sc, &Mode::Pct { seed: 5, preemptions: 2, horizon }, &dir);
+            eprintln!("--- sample pct schedule ({} decisions, {} switches): {:?}", r.decisions.len(), r.switches, r.decisions);
+        }
         rep.p("C10").count("sequential_reference_outcomes", refs.len() as u64);
         rep.p("C10").count("sequential_interleavings_executed", inter.len() as u64);
         // ---- scheduled executions
@@ -567,7 +585,7 @@ pub fn run(seed: u64, shard: u64, nshards: u64, schedules_per_scenario: u64, fre
                 let mut v = Vec::new();
                 for k in 0..schedules_per_scenario {
                     let s = seed.wrapping_mul(1_000_003).wrapping_add(shard * 1_000_000 + si as u64 * 10_000 + k);
-                    v.push(Mode::Pct { seed: s, preemptions: (k % 4) as usize });
+                    v.push(Mode::Pct { seed: s, preemptions: (k % 4) as usize, horizon });
                 }
                 for k in 0..free_runs {
                     v.push(Mode::Free { seed: seed.wrapping_mul(77).wrapping_add(shard * 1000 + si as u64 * 100 + k) });
@@ -578,7 +596,7 @@ pub fn run(seed: u64, shard: u64, nshards: u64, schedules_per_scenario: u64, fre
         let _ = nshards;
         for m in modes {
             let r = execute(sc, &m, &dir);
-            let replay = json!({"engine":"e2","seed":seed,"shard":shard,"scenario":sc.name,"mode": match &m { Mode::Pct{seed,preemptions} => json!({"pct":[seed,preemptions]}), Mode::Free{seed} => json!({"free":seed}), Mode::Script(s) => json!({"script":s}) }});
+            let replay = json!({"engine":"e2","seed":seed,"shard":shard,"scenario":sc.name,"mode": match &m { Mode::Pct{seed,preemptions,horizon} => json!({"pct":[seed,preemptions,horizon]}), Mode::Free{seed} => json!({"free":seed}), Mode::Script(s) => json!({"script":s}) }});
             all_edges.extend(r.edges.iter().cloned());
             all_pairs.extend(r.pairs.iter().cloned());
             for pid in ["C10", "C11"] {
@@ -611,8 +629,8 @@ pub fn run(seed: u64, shard: u64, nshards: u64, schedules_per_scenario: u64, fre
             }
             if !refs.contains(&r.outcome) {
                 // which named sub-oracle?
-                let detail = diff_against(&r.outcome, &refs);
-                rep.p("C10").violation(format!("C10:not-linearizable:{}", sc.name), format!("scenario {} ({}), {m:?}: the outcome equals none of the {} sequential outcomes. {detail}", sc.name, sc.desc, refs.len()), replay);
+                let (detail, parts) = diff_against(&r.outcome, &refs);
+                rep.p("C10").violation(format!("C10:not-linearizable:{}:{parts}", sc.name), format!("scenario {} ({}), {m:?}: the outcome equals none of the {} sequential outcomes. {detail}", sc.name, sc.desc, refs.len()), replay);
             } else {
                 rep.p("C10").count("outcomes_matched", 1);
             }
@@ -642,17 +660,30 @@ pub fn run(seed: u64, shard: u64, nshards: u64, schedules_per_scenario: u64, fre
     std::fs::remove_dir_all(&dir).ok();
 }
 
-fn diff_against(outcome: &str, refs: &BTreeSet<String>) -> String {
+fn diff_against(outcome: &str, refs: &BTreeSet<String>) -> (String, String) {
     // nearest reference = most common lines
     let lines: BTreeSet<&str> = outcome.lines().collect();
     let best = refs.iter().max_by_key(|r| r.lines().filter(|l| lines.contains(l)).count());
     match best {
-        None => "no reference outcome".into(),
+        None => ("no reference outcome".into(), "noref".into()),
         Some(b) => {
             let bl: BTreeSet<&str> = b.lines().collect();
             let only_got: Vec<&&str> = lines.difference(&bl).collect();
             let only_ref: Vec<&&str> = bl.difference(&lines).collect();
-            format!("Observed but in no sequential order: {only_got:?}; nearest sequential outcome has instead: {only_ref:?}")
+            // which parts of the outcome differ: replies (first line), database rows, RPC multiset (last line)
+            let mut parts = BTreeSet::new();
+            for l in only_got.iter().chain(only_ref.iter()) {
+                if l.starts_with("{\"") {
+                    parts.insert("replies");
+                } else if l.starts_with('[') {
+                    parts.insert("rpcs");
+                } else if l.starts_with("U ") {
+                    parts.insert("balances");
+                } else {
+                    parts.insert("records");
+                }
+            }
+            (format!("Observed but in no sequential order: {only_got:?}; nearest sequential outcome has instead: {only_ref:?}"), parts.into_iter().collect::<Vec<_>>().join("+"))
         }
     }
 }
